@@ -364,12 +364,16 @@ structure State where
   ef : Option (List (Int × Int)) := none
   ff : Option Table := none
   holes : Option (List Nat) := none
+  /-- `edge_face_distances`, symbolically: per edge the (sorted) pair of THIS grid's faces whose
+      centres the distance was taken between, `none` = 0 (an edge with a single face).  A face index
+      `-1` stands for "a face that is not in this grid". -/
+  efd : Option (List (Option (Int × Int))) := none
   /-- recorded source indices (only on a subset) -/
   recd : Option (List Int × List Nat × List Int) := none
 deriving Repr, DecidableEq
 
 inductive Var where
-  | edgeNode | faceEdge | nPerFace | nodeFace | edgeFace | faceFace | holes
+  | edgeNode | faceEdge | nPerFace | nodeFace | edgeFace | faceFace | holes | edgeFaceDist
 deriving Repr, DecidableEq
 
 /-- number of nodes: one more than the largest entry (`_ds.sizes["n_node"]`; only its being
@@ -418,6 +422,16 @@ def getHoles (g : State) : Option State :=
     let g ← getEF g
     pure { g with holes := some (Incidence.holeEdges (g.ef.getD [])) }
 
+/-- `_construct_edge_face_distances`: 0 where the second face is `FILL`, else the arc between the two
+    face centres -/
+def efdOf (EF : List (Int × Int)) : List (Option (Int × Int)) :=
+  EF.map (fun p => if p.2 = FILL then none else some (sortPair p))
+
+def getEFD (g : State) : Option State :=
+  if g.efd.isSome then some g else do
+    let g ← getEF g
+    pure { g with efd := some (efdOf (g.ef.getD [])) }
+
 def request (g : State) : Var → Option State
   | .edgeNode => some (getEN g)
   | .faceEdge => getFE g
@@ -426,6 +440,7 @@ def request (g : State) : Var → Option State
   | .edgeFace => getEF g
   | .faceFace => getFF g
   | .holes => getHoles g
+  | .edgeFaceDist => getEFD g
 
 /-- a history of requests on a grid (`none` as soon as one raises) -/
 def runHist (g : State) : List Var → Option State
@@ -435,13 +450,34 @@ def runHist (g : State) : List Var → Option State
 /-- the tables the slicer reads -/
 def State.src (g : State) : Src := { t := g.t, EN := g.en.getD [], FE := g.fe.getD [] }
 
+/-- the subset's number of a source face, `-1` when the face is not selected -/
+def renF (idx : List Nat) (x : Int) : Int :=
+  if 0 ≤ x ∧ x.toNat ∈ idx then Int.ofNat (idx.idxOf x.toNat) else -1
+
+def selectedF (idx : List Nat) (x : Int) : Bool := decide (0 ≤ x ∧ x.toNat ∈ idx)
+
+/-- `edge_face_distances` of the source carried to the subset's edges `es` (`isel(n_edge=…)`); with
+    `mask` the value survives only when BOTH faces were selected (fixes/C09-3), otherwise it is kept
+    as it is (what /repo did) -/
+def travelEFD (mask : Bool) (idx : List Nat) (es : List Int) (v : List (Option (Int × Int))) :
+    List (Option (Int × Int)) :=
+  es.map (fun e =>
+    match (getI? v e).join with
+    | none => none
+    | some p =>
+      if mask && !(selectedF idx p.1 && selectedF idx p.2) then none
+      else some (sortPair (renF idx p.1, renF idx p.2)))
+
 /-- `_slice_face_indices` on the dataset.  `ds.isel` slices every variable with a grid dimension;
     node-indexing tables are re-indexed, the other connectivity tables are dropped.
     `attrsTravel` : the attributes of `edge_node_connectivity` (with the SOURCE's `inverse_indices`)
     are copied and `face_edge_connectivity` is dropped (what /repo did) instead of being re-indexed;
     `holesTravel` : a materialised `hole_edge_indices` (no grid dimension) passes through `isel`
-    untouched (what /repo did) instead of being dropped. -/
-def State.sliceWith (attrsTravel holesTravel : Bool) (g : State) (idx : List Nat) : Option State := do
+    untouched (what /repo did) instead of being dropped;
+    `efdStale`    : a materialised `edge_face_distances` is sliced like a per-edge invariant (what /repo
+    did) although it depends on BOTH faces of the edge, instead of being masked. -/
+def State.sliceWith (attrsTravel holesTravel efdStale : Bool) (g : State) (idx : List Nat) :
+    Option State := do
   let g ← getFE g
   let g := getEN g
   let u := sliceFaces g.src idx
@@ -451,13 +487,14 @@ def State.sliceWith (attrsTravel holesTravel : Bool) (g : State) (idx : List Nat
          npf := g.npf.map (fun N => idx.map (fun f => N.getD f 0)),
          nf := none, ef := none, ff := none,
          holes := if holesTravel then g.holes else none,
+         efd := g.efd.map (travelEFD (!efdStale) idx u.edgeIdx),
          recd := some (u.nodeIdx, u.faceIdx, u.edgeIdx) }
 
-/-- the repaired slicer (fixes/C09-1 and C09-2): nothing stale travels -/
-def State.slice (g : State) (idx : List Nat) : Option State := g.sliceWith false false idx
+/-- the repaired slicer (fixes/C09-1, C09-2, C09-3): nothing stale travels -/
+def State.slice (g : State) (idx : List Nat) : Option State := g.sliceWith false false false idx
 
-/-- `_slice_face_indices` as it stands in /repo -/
-def State.sliceAsIs (g : State) (idx : List Nat) : Option State := g.sliceWith true true idx
+/-- `_slice_face_indices` as it stood in /repo -/
+def State.sliceAsIs (g : State) (idx : List Nat) : Option State := g.sliceWith true true true idx
 
 /-- what a request on `g` reports (`none` = raises) -/
 structure View where
@@ -489,5 +526,11 @@ def State.view (g : State) (order : List Var) : Option View := do
   let g ← request g .holes
   let holes := g.holes.getD []
   pure { en := en, fe := fe, npf := npf, nf := nf, ef := ef, ff := ff, holes := holes }
+
+/-- the user's requests `order`, then `edge_face_distances` is requested and read -/
+def State.viewEFD (g : State) (order : List Var) : Option (List (Option (Int × Int))) := do
+  let g ← runHist g order
+  let g ← request g .edgeFaceDist
+  pure (g.efd.getD [])
 
 end UxVerif.Slice
